@@ -10,6 +10,7 @@ use std::io::{self, BufRead, BufWriter, Write};
 mod util;
 mod clock;
 mod conv;
+mod m_ana;
 mod m_http;
 mod m_pool;
 mod m_tcp;
@@ -37,6 +38,7 @@ fn main() {
         "tls" => m_tls::run(&mut input, &mut out, rest),
         "http" => m_http::run(&mut input, &mut out, rest),
         "pool" => m_pool::run(&mut input, &mut out, rest),
+        "ana" => m_ana::run(&mut input, &mut out, rest),
         m => {
             eprintln!("unknown mode {m}");
             std::process::exit(2);
